@@ -61,7 +61,9 @@ def Gather(x, m): return T("Gather", x, m)        # internal: x[m], m boolean; l
 def Crop(key, x): return T("Crop", key, x)        # internal: x[slices]
 def SetSlice(key, x, y): return T("SetSlice", key, x, y)   # internal: x with x[slices] := y
 def Seq(*ts): return T("Seq", tuple(ts))          # internal: python tuple/list of arrays
-def Slices(key): return T("Slices", key)          # internal: a tuple of slice objects with constant bounds
+def Slices(key): return T("Slices", key)
+def Carry(name): return T("Carry", name)          # internal: value of a loop-carried variable at the start of an iteration
+def Stack(*ts): return T("Stack", tuple(ts))      # internal: a 3-d stack whose planes are image-shaped (pointwise in p)          # internal: a tuple of slice objects with constant bounds
 
 
 def And(m1, m2):
@@ -565,6 +567,9 @@ class Interp:
             # _cpmorphology2.pyx: output = zeros; output[i-1, j-1] = orig_image[i-1, j-1]
             idx = [a for a in args[1:] if not is_const(a)]
             return Select(args[0], Glob("index_set", *idx), Const("zeros"))
+        if f in ("max", "min", "sum", "mean") and len(args) == 1 and args[0][0] == "Stack" and list(kws) == ["axis"] \
+                and isinstance(n.keywords[0].value, ast.Constant) and n.keywords[0].value.value == 0:
+            return Pw(f + "_axis0", *args[0][1])              # reduction over the planes: pointwise in p
         if f == "logical_and" and len(args) == 2 and not kws:
             return And(args[0], args[1])
         if f == "logical_not" and len(args) == 1:
@@ -779,8 +784,17 @@ class Interp:
         arr = [t for t in idx if not is_const(t)]
         if len(idx) == 1 and arr and is_boolish(idx[0]):
             return fold(self.masked_write(cur, idx[0], v, aug))
+        if (len(elts) == 3 and not arr and aug is None and not isinstance(elts[0], ast.Slice)
+                and all(isinstance(e, ast.Slice) and e.lower is None and e.upper is None and e.step is None
+                        for e in elts[1:]) and self.image_shaped(v)):
+            return Stack(*[t for t in (cur, v) if not is_const(t)])      # x[k, :, :] = image-shaped v: one plane of a stack
         parts = [t for t in [cur] + arr + [v] if not is_const(t)]
         return Glob("indexed_store", *parts) if parts else Const("store")
+
+    @staticmethod
+    def image_shaped(t):
+        return t[0] in ("Img", "MaskE", "Pw", "Loc", "LocS", "Erode", "ErodeP", "ErodeS", "Select", "Not", "MConv", "Crop") \
+            and not (t[0] == "Pw" and any(x[0] in ("Gather", "Glob", "Stack") for x in t[2]))
 
     def masked_write(self, cur, sel, v, aug):
         """cur[sel] = v  /  cur[sel] op= v   for a boolean selector array"""
@@ -793,6 +807,9 @@ class Interp:
                 vs, vn = vs[1], not vn
             if vs == sel and vn == neg:
                 v = v[1]                                      # x[sel] = y[sel]
+                if not neg and sel[0] == "Crop" and v[0] == "Crop" and v[1] == sel[1] and not is_const(v[2]):
+                    # y[k][m[k]] is used only where m[k] holds: there y[k] == where(m, y, 0)[k]
+                    v = Crop(v[1], Select(v[2], sel[2], FalseC))
             else:
                 v = Glob("scatter", v, sel)
         elif v[0] == "Pw" and aug is None and all(x[0] == "Gather" and self._same_sel(x[2], sel, neg) or is_const(x)
@@ -863,6 +880,8 @@ class Interp:
                         and f not in self.m.funcs and f not in POINTWISE and f not in ("range", "len", "int", "float", "min", "max", "zip",
                                                             "enumerate", "slice", "extract_from_image_lookup"):
                     raise Unsupported("unknown call %s inside a loop" % f)
+        if self.refined_loop(st, env, written):
+            return
         deps = []
         for r in read:
             t = env.get(r)
@@ -872,6 +891,93 @@ class Interp:
                         deps.append(x)
         for w in written:
             env[w] = Glob("loop:" + w, *deps) if deps else Const("loop:" + w)
+
+    def refined_loop(self, st, env, written):
+        """One symbolic iteration with the loop-carried variables as placeholders.  The final value of every written
+        variable is a pure function of (a) the entry values of the carried variables and (b) the values, over all
+        iterations, of the maximal carry-free sub-terms E_j of the iteration's terms (their instances differ only in
+        image-independent constants, which the checker ignores).  When every path from a carried placeholder to the
+        root is pointwise (Pw / Select / plane of a stack) the function is pointwise in p as well.
+        Returns False (caller falls back to the coarse abstraction) when the body cannot be evaluated this way."""
+        if any(isinstance(c, (ast.Break, ast.Continue)) for c in ast.walk(st)) or st.orelse:
+            return False
+        e2 = dict(env)
+        targets = []
+        if isinstance(st, ast.For):
+            if not is_const(self.ev(st.iter, env)):
+                return False
+            for c in ast.walk(st.target):
+                if isinstance(c, ast.Name):
+                    targets.append(c.id)
+        carried = [w for w in written if w not in targets]
+        for w in carried:
+            e2[w] = Carry(w)
+        for t in targets:
+            e2[t] = Const("loopvar:" + t)
+        try:
+            extra = [self.ev(st.test, e2)] if isinstance(st, ast.While) else []
+            if self.block(st.body, e2) is not None:
+                return False
+        except Unsupported:
+            return False
+        terms = {w: e2[w] for w in carried if e2.get(w) is not None and e2[w] != Carry(w)}
+        memo = {}
+
+        def kids(t):
+            out = []
+            for x in t[1:]:
+                if isinstance(x, T):
+                    out.append(x)
+                elif isinstance(x, tuple):
+                    out.extend(y for y in x if isinstance(y, T))
+            return out
+
+        def has_carry(t):
+            r = memo.get(t)
+            if r is None:
+                r = memo[t] = (t[0] == "Carry") or any(has_carry(c) for c in kids(t))
+            return r
+
+        E = []
+
+        def collect(t):
+            if not has_carry(t):
+                if not is_const(t) and t not in E:
+                    E.append(t)
+                return
+            for c in kids(t):
+                collect(c)
+
+        def pointwise(t):
+            if not has_carry(t) or t[0] == "Carry":
+                return True
+            if t[0] in ("Pw", "Stack", "Select", "Not"):
+                return all(pointwise(c) for c in kids(t))
+            return False
+
+        for t in list(terms.values()) + extra:
+            if t[0] == "Seq":
+                return False
+            collect(t)
+        if any(x[0] in ("Seq", "Slices") for x in E):
+            return False
+        entries = [env[w] for w in carried if w in env and not is_const(env[w]) and env[w][0] != "Seq"]
+        pw_all = all(pointwise(t) for t in terms.values()) and not extra
+        for w in carried:
+            if w not in terms:
+                if w not in env:
+                    env[w] = Const("loop:" + w)
+                continue
+            parts = entries + E
+            if not parts:
+                env[w] = Const("loop:" + w)
+            elif pw_all and all(self.image_shaped(x) or x[0] == "Stack" for x in parts):
+                env[w] = Stack(*parts) if terms[w][0] == "Stack" else Pw("loop:" + w, *parts)
+            else:
+                env[w] = Glob("loop:" + w, *[x for y in parts for x in (y[1] if y[0] == "Stack" else [y])])
+        for t in targets:
+            env[t] = Const("loopvar:" + t)
+        return True
 
 
 def translate(module, name, image_param=None, callables=()):
@@ -907,6 +1013,10 @@ def _lower(t):
         return t
     if k == "Not":
         return Pw("not", lower(t[1]))
+    if k == "Stack":
+        return Pw("stack_planes", *[lower(x) for x in t[1]])
+    if k == "Carry":
+        raise Unsupported("loop-carried placeholder escaped")
     if k == "Gather":
         x, m = lower(t[1]), lower_sel(t[2])
         return Glob("gather", Select(x, m[0], FalseC) if not m[1] else Select(FalseC, m[0], x), m[0])
